@@ -672,6 +672,9 @@ def _through_siblings(ctx: core.Ctx, mod: ast.Module, cls: ast.ClassDef, names):
         if isinstance(m, ast.FunctionDef) and any(isinstance(c, ast.Call) and isinstance(c.func, ast.Attribute) and isinstance(c.func.value, ast.Name)
                                                    and c.func.value.id in _nm.SIBLINGS for c in ast.walk(m)):
             cls.body[i] = _nm.inline_only(m, only_siblings)
+    for m in cls.body:
+        if isinstance(m, ast.FunctionDef):
+            _nm.unprecompute_lists(m)                 # PRECOMP-LIST: argument lists computed ahead of the loop that uses them
     for m, hs in sorted(used.items()):
         srel = f"py/formak/{m}.py"
         smod = ctx.parse(srel)
@@ -685,6 +688,7 @@ def _through_siblings(ctx: core.Ctx, mod: ast.Module, cls: ast.ClassDef, names):
 
 
 def check_python_block(ctx: core.Ctx, mod: ast.Module, rel="py/formak/python.py"):
+    PRESTR["on"] = False
     trust_imports(ctx, mod, rel, ["cse", "simplify", "lambdify"])
     cls = core.need(core.find_class(mod, "BasicBlock"), "python.BasicBlock")
     cls = _through_siblings(ctx, mod, cls, ["cse", "simplify", "lambdify"])
@@ -769,6 +773,9 @@ def check_python_block(ctx: core.Ctx, mod: ast.Module, rel="py/formak/python.py"
     check_execute(ctx, rel, exe, attr_roles)
 
 
+PRESTR = {"on": False}
+
+
 def _prefix_ok(pre, P):
     I = ("I",)
     if pre is None:
@@ -786,6 +793,9 @@ def _prefix_ok(pre, P):
     if v[0] != "TUPLE" or len(v) != 3:
         return False, f"entry is {show(v)}, not a (symbol, callable) pair"
     symt, lam = v[1], v[2]
+    if symt == ("STR", ("ITEM", p_i, 0)):
+        PRESTR["on"] = True                           # the name the temporaries dict is keyed by, computed once at compile time
+        symt = ("ITEM", p_i, 0)
     if symt != ("ITEM", p_i, 0):
         return False, f"entry symbol is {show(symt)}, not the i-th replacement's own symbol"
     if lam[0] != "LAMBDIFY":
@@ -902,7 +912,7 @@ def check_execute(ctx, rel, exe: ast.FunctionDef, attr_roles=None):
             ok, why = False, f"temporaries are stored in a loop over {show(lctx[-1][1]) if lctx else 'nothing'}, not over the prefix list in order"
         else:
             el = ("IDX", ("PREFIX",), ("I", lctx[-1][2]))
-            if key != ("STR", ("ITEM", el, 0)):
+            if key != (("ITEM", el, 0) if PRESTR["on"] else ("STR", ("ITEM", el, 0))):
                 ok, why = False, f"value stored under {show(key)}, not under str(<its own symbol>)"
             elif v[0] != "APPLY" or v[1] != ("ITEM", el, 1):
                 ok, why = False, f"stored value is {show(v)}, not the result of the entry's own callable"
